@@ -387,3 +387,157 @@ Proof. vm_compute. repeat split; reflexivity. Qed.
 
 Example C11_rc_ok_satisfiable : rc_ok [2; 0; 2] [2; 3].
 Proof. split; [repeat constructor | repeat constructor]. Qed.
+
+(* ------------------------------------------------------------------ *)
+(* Operation HISTORIES on one distributed_matrix object (DistMove.v): constructor, then any sequence of
+   move_to_backend(bprm, keep_src) calls, then a consumer.  The object has TWO views: the source matrices
+   a_loc/a_rem returned by local()/remote() (remote part with GLOBAL column ids; read by the copy constructor to
+   another backend, transpose, product, remote_rows, scale, sort_rows, spectral_radius, mpi::amg::rebuild) and the
+   backend view A_loc/A_rem read by mul/residual (remote part renumbered through the pattern's bijection
+   C11_renumbering_is_bijection).  Tie: ops "hist" of harness/drv_mpi_algebra.cpp / ocaml/dist/ops_dist.ml. *)
+From Amgcl Require Import DistMove DistMoveProofs DistMoveCor.
+
+(* (ii) keep_src = true leaves the source UNCHANGED (term equality), in every state of the object ... *)
+Theorem C11_kept_source_is_source (S : Scalar) (O : dobj S) : source (move_to_backend true O) = source O.
+Proof. exact (kept_source_is_source O). Qed.
+Print Assumptions C11_kept_source_is_source.
+
+(* ... hence after any number of keep_src = true calls local()/remote() still return the matrix the object was built from *)
+Theorem C11_kept_source_history (S : Scalar) (D : dmat S) (ks : list bool) :
+  all_keep ks = true -> source (moves ks (construct D)) = Some D.
+Proof. exact (kept_source_of_constructed D ks). Qed.
+Print Assumptions C11_kept_source_history.
+
+(* one keep_src = false anywhere in the history releases the source on every rank (a later consumer of local()/remote()
+   would dereference a null pointer: no such history is generated by the tie; the copy constructor has no result) *)
+Theorem C11_released_source_history (S : Scalar) (O : dobj S) (ks : list bool) :
+  In false ks -> released (moves ks O) /\ (do_ranks O <> [] -> copy_obj (moves ks O) = None).
+Proof. intro H. split; [exact (released_history ks O H) | exact (copy_of_released_fails O ks H)]. Qed.
+Print Assumptions C11_released_source_history.
+
+(* the backend view is fixed by the FIRST move_to_backend: later calls (any keep_src) do not touch it *)
+Theorem C11_backend_fixed_by_first_move (S : Scalar) (O : dobj S) (k1 : bool) (ks : list bool) :
+  backend (moves ks (move_to_backend k1 O)) = backend (move_to_backend k1 O).
+Proof. exact (backend_fixed_by_first_move_history ks k1 O). Qed.
+Print Assumptions C11_backend_fixed_by_first_move.
+
+(* (i) the backend view's product / residual = the SOURCE's rank-by-rank product / residual (Dist.dist_spmv, the one
+   C11_spmv_every_partition is about), after any history k :: ks, any scalar type; Some = no null backend pointer is
+   dereferenced and the ghost vector has recv_count entries *)
+Theorem C11_moved_spmv_is_source_spmv (S : Scalar) (D : dmat S) k ks alpha (xs : list (vec S)) beta (ys : list (vec S)) :
+  length (dm_ranks D) = length (dm_cparts D) ->
+  obj_spmv alpha (moves (k :: ks) (construct D)) xs beta ys = map Some (dist_spmv alpha D xs beta ys).
+Proof. exact (history_spmv_is_source_spmv D k ks alpha xs beta ys). Qed.
+Print Assumptions C11_moved_spmv_is_source_spmv.
+
+Theorem C11_moved_residual_is_source_residual (S : Scalar) (D : dmat S) k ks (fs xs ress : list (vec S)) :
+  length (dm_ranks D) = length (dm_cparts D) ->
+  obj_residual fs (moves (k :: ks) (construct D)) xs ress = map Some (dist_residual fs D xs ress).
+Proof. exact (history_residual_is_source_residual D k ks fs xs ress). Qed.
+Print Assumptions C11_moved_residual_is_source_residual.
+
+(* corollaries: every consumer theorem applies to the object after move_to_backend(keep_src = true) histories *)
+Theorem C11_transpose_after_keep_src (S : Scalar) (A : crs S) (rparts cparts : list nat) (ks : list bool) :
+  all_keep ks = true ->
+  length rparts = length cparts -> psum rparts = nrows A -> psum cparts = ncols A ->
+  exists D, source (moves ks (construct (split A rparts cparts))) = Some D /\
+    let T := assemble (dist_transpose D rparts) in
+    ncols T = nrows A /\
+    forall j, j < ncols A -> Permutation (nth j (rows T) []) (nth j (rows (transpose A)) []).
+Proof. exact (transpose_after_keep A rparts cparts ks). Qed.
+Print Assumptions C11_transpose_after_keep_src.
+
+Theorem C11_scale_after_keep_src (S : Scalar) (A : crs S) (rparts cparts : list nat) (ks : list bool) (s : S) :
+  all_keep ks = true ->
+  exists D, source (moves ks (construct (split A rparts cparts))) = Some D /\
+    dist_scale D s = split (mscale A s) rparts cparts.
+Proof. exact (scale_sort_after_keep A rparts cparts ks s). Qed.
+Print Assumptions C11_scale_after_keep_src.
+
+(* copy to another backend (the copy takes the source matrices and a COPY of the pattern), then any history on the copy *)
+Theorem C11_copy_after_keep_src (S : Scalar) (D : dmat S) (ks : list bool) :
+  all_keep ks = true -> length (dm_ranks D) = length (dm_cparts D) ->
+  exists O', copy_obj (moves ks (construct D)) = Some O' /\
+    forall k' ks' alpha xs beta ys,
+      obj_spmv alpha (moves (k' :: ks') O') xs beta ys = map Some (dist_spmv alpha D xs beta ys).
+Proof. exact (copy_after_keep D ks). Qed.
+Print Assumptions C11_copy_after_keep_src.
+
+Theorem C11_gershgorin_after_keep_src (S : Scalar) :
+  (forall a : S, sltb a a = false) ->
+  (forall a b c : S, sltb a b = true -> sltb b c = true -> sltb a c = true) ->
+  (forall a b : S, sltb a b = false -> sltb b a = false -> a = b) ->
+  Sring S ->
+  forall (scale : bool) (lenss : list (list nat)) (A : crs S) (parts : list nat) (ks : list bool),
+  all_keep ks = true ->
+  psum parts = nrows A ->
+  (forall r, r < length parts -> psize parts r <= psum (nth r lenss [])) ->
+  exists D, source (moves ks (construct (split A parts parts))) = Some D /\
+    dist_gershgorin_thr scale lenss D = repeat (gershgorin scale A) (length parts).
+Proof. exact (gershgorin_after_keep S). Qed.
+Print Assumptions C11_gershgorin_after_keep_src.
+
+(* ring: products / residuals after ANY history (keep_src true or false in any order) equal the serial kernels, and
+   the product of two kept objects is the serial product -- closed at Qc *)
+Theorem C11_spmv_after_history_Qc (A : crs QcS) (rparts cparts : list nat) k ks alpha (x : vec QcS) beta (y : vec QcS) :
+  length rparts = length cparts -> psum rparts = nrows A -> psum cparts = ncols A ->
+  wf A = true -> length y = nrows A ->
+  exists ys', obj_spmv alpha (moves (k :: ks) (construct (split A rparts cparts))) (chunks cparts x) beta (chunks rparts y)
+              = map Some ys' /\
+              concat ys' = spmv alpha A x beta y.
+Proof. exact (spmv_after_history QcS QcS_ring QcS_eqb A rparts cparts k ks alpha x beta y). Qed.
+Print Assumptions C11_spmv_after_history_Qc.
+
+Theorem C11_residual_after_history_Qc (A : crs QcS) (rparts cparts : list nat) k ks (f x res : vec QcS) :
+  length rparts = length cparts -> psum rparts = nrows A -> psum cparts = ncols A ->
+  wf A = true -> length f = nrows A -> length res = nrows A ->
+  exists rs', obj_residual (chunks rparts f) (moves (k :: ks) (construct (split A rparts cparts))) (chunks cparts x) (chunks rparts res)
+              = map Some rs' /\
+              concat rs' = residual f A x res.
+Proof. exact (residual_after_history QcS QcS_ring QcS_eqb A rparts cparts k ks f x res). Qed.
+Print Assumptions C11_residual_after_history_Qc.
+
+Theorem C11_product_after_keep_src_Qc (A B : crs QcS) (rpA cpA cpB : list nat) (ksA ksB : list bool) :
+  all_keep ksA = true -> all_keep ksB = true ->
+  length rpA = length cpA -> length cpA = length cpB -> psum rpA = nrows A -> psum cpA = nrows B ->
+  exists DA DB, source (moves ksA (construct (split A rpA cpA))) = Some DA /\
+                source (moves ksB (construct (split B cpA cpB))) = Some DB /\
+    let C := assemble (dist_product DA DB) in
+    ncols C = psum cpB /\
+    length (rows C) = length (rows (spgemm_saad A B false)) /\
+    forall i j, mget C i j = mget (spgemm_saad A B false) i j.
+Proof. exact (product_after_keep QcS QcS_ring A B rpA cpA cpB ksA ksB). Qed.
+Print Assumptions C11_product_after_keep_src_Qc.
+
+(* (iii) converse witness = the seeded regression C11-2 (keep_src no longer copies: the kept remote part is renumbered IN
+   PLACE, DistMove.move_to_backend_inplace).  3 ranks, one row/column each, A = w_A.  The backend view is the same for
+   EVERY object and input (products and residuals stay right) -- but local()/remote() now return w_D' <> the source:
+   remote columns [[2]];[[0;2]];[[1]] became the ghost ids [[0]];[[0;1]];[[0]], and every consumer differs from the
+   serial operation: transpose, product with the object as left / as right operand, the rows shipped by remote_rows,
+   and the copy to another backend meets a column (0 on rank 0) that is not a key of idx (C->renumber throws
+   std::out_of_range on that rank only -- the other ranks then wait for it forever).  Needs >= 3 ranks: on 2 ranks a
+   rank's ghost ids can coincide with the global ids. *)
+Theorem C11_move_to_backend_inplace_renumbering_refuted :
+  source w_kept = Some w_D /\
+  (forall alpha xs beta ys, obj_spmv alpha w_inpl xs beta ys = map Some (dist_spmv alpha w_D xs beta ys)) /\
+  let D' := w_D' in source w_inpl = Some D' /\ D' <> w_D /\
+    rem_colss w_D = [[[2]]; [[0; 2]]; [[1]]] /\ rem_colss D' = [[[0]]; [[0; 1]]; [[0]]] /\
+    mget (assemble (dist_transpose D' w_p)) 0 0 <> mget (transpose w_A) 0 0 /\
+    mget (assemble (dist_product D' w_D)) 0 0 <> mget (spgemm_saad w_A w_A false) 0 0 /\
+    mget (assemble (dist_product w_D D')) 0 2 <> mget (spgemm_saad w_A w_A false) 0 2 /\
+    dist_remote_rows (dm_pattern w_D) D' 0 <> dist_remote_rows (dm_pattern w_D) w_D 0 /\
+    bad_remote_cols (rank_rc (do_pats w_inpl) 0) (nth 0 (dm_ranks D') dflt_rank) = [0] /\
+    bad_remote_cols (rank_rc (do_pats w_kept) 0) (nth 0 (dm_ranks w_D) dflt_rank) = [].
+Proof. exact inplace_renumbering_refuted. Qed.
+Print Assumptions C11_move_to_backend_inplace_renumbering_refuted.
+
+(* non-vacuity of the history theorems on the same 3-rank world: keep, keep, release; ghost vector sizes = recv counts *)
+Example C11_history_nonvacuous :
+  let O := moves [true; true] (construct w_D) in
+  source O = Some w_D /\ released (move_to_backend false O) /\
+  map (fun b => snd b) (backend O) = [Some 1; Some 2; Some 1] /\
+  map (fun b => option_map (fun R : crs QcS => map (map fst) (rows R)) (snd (fst b))) (backend O)
+    = [Some [[0]]; Some [[0; 1]]; Some [[0]]].
+Proof.
+  split; [reflexivity|]. split; [apply released_after_false|]. split; vm_compute; reflexivity.
+Qed.
